@@ -172,9 +172,11 @@ def canon_value(v):
     if v is None:
         return ['none']
     if hasattr(v, 'year') and hasattr(v, 'month') and hasattr(v, 'day'):
-        m = re.match(r'(-?[0-9]+)-([0-9][0-9])-([0-9][0-9])', str(v))   # the lexical year, not the internal one
-        if m:
-            return ['date', int(m.group(1)), int(m.group(2)), int(m.group(3))]
+        # the lexical year from the fields of the object (XSD 1.1 classes count a year 0000, so their internal year of a
+        # BCE date is the lexical one minus 1); str() is not used: for negative years of more than four digits it is off
+        # by one in the 1.1 classes (finding F-C02b, judged on the round trip)
+        year = v.year + 1 if getattr(v, 'bce', False) and getattr(v, '_xsd_version', getattr(v, 'xsd_version', '1.0')) == '1.1' else v.year
+        return ['date', int(year), int(v.month), int(v.day)]
     return ['other', type(v).__name__, str(v)]
 
 
@@ -311,7 +313,10 @@ def evaluate(ctx, cases):
         elif o['valid']:
             if not same_value(o['value'], mv) or (kind_matters(c['type']) and o['value'][0] != mv[0]):
                 problems.append('text %r decodes to %s, the XSD value is %s (%s)' % (text, o['value'], mv, tdesc))
-            if o.get('roundtrip') is not True and not has_union(c['type']):
+            if o.get('roundtrip') is not True and not has_union(c['type']) and c['version'] == '1.1' \
+                    and 'xs:date' in type_desc(c['type']) and re.match(r'\s*-[0-9]{5,}', text):
+                ctx.known_finding('F-C02b')     # elementpath (XSD 1.1): str() of negative years with more than four digits
+            elif o.get('roundtrip') is not True and not has_union(c['type']):
                 problems.append('encode(decode(%r)) = %r does not decode to the same value (%s): %s'
                                 % (text, o.get('encoded'), tdesc, o.get('roundtrip')))
         if o['is_valid'] != o['valid']:
